@@ -210,6 +210,23 @@ func runC11(c *core.Ctx) {
 }
 
 func c11flatMapClosure(p *core.Prog, fm, cl, doEffect *ssa.Function) (bool, string) {
+	// a closure that only defers a call to a helper: analyse the helper, reading its parameters as the arguments
+	ren := map[string]string{}
+	if tgt, call := core.ThinTarget(p, cl); tgt != nil && tgt != doEffect {
+		for i, prm := range tgt.Params {
+			if i < len(call.Call.Args) {
+				ren[prm.Name()] = core.Path(call.Call.Args[i])
+			}
+		}
+		cl = tgt
+	}
+	pathOf := func(v ssa.Value) string {
+		s := core.Path(v)
+		if r, ok := ren[s]; ok {
+			return r
+		}
+		return s
+	}
 	// find calls
 	var evals []*ssa.Call
 	var fnCalls []*ssa.Call
@@ -245,7 +262,7 @@ func c11flatMapClosure(p *core.Prog, fm, cl, doEffect *ssa.Function) (bool, stri
 	}
 	fnCall := fnCalls[0]
 	// fn is the captured parameter fn of FlatMap
-	if core.Path(fnCall.Call.Value) != fm.Params[1].Name() {
+	if pathOf(fnCall.Call.Value) != fm.Params[1].Name() {
 		return false, "the function applied is not FlatMap's argument"
 	}
 	var first, second *ssa.Call
@@ -259,7 +276,7 @@ func c11flatMapClosure(p *core.Prog, fm, cl, doEffect *ssa.Function) (bool, stri
 	if first == nil || second == nil {
 		return false, "fn is not applied to the value of the receiver's evaluation"
 	}
-	if core.Path(first.Call.Args[0]) != fm.Params[0].Name() {
+	if pathOf(first.Call.Args[0]) != fm.Params[0].Name() {
 		return false, "the first evaluation is not of the receiver"
 	}
 	if core.Resolve(second.Call.Args[0]) != ssa.Value(fnCall) {
@@ -281,6 +298,18 @@ func c11flatMapClosure(p *core.Prog, fm, cl, doEffect *ssa.Function) (bool, stri
 type c11clo struct {
 	mc    *ssa.MakeClosure
 	stack []*ssa.Call
+	// when the closure only defers a call to a helper (func() { x.helper(a, b) }), body is that helper and
+	// thin the call; otherwise body is the closure's own function
+	body *ssa.Function
+	thin *ssa.Call
+}
+
+func newC11clo(p *core.Prog, mc *ssa.MakeClosure, stack []*ssa.Call) *c11clo {
+	k := &c11clo{mc: mc, stack: stack, body: mc.Fn.(*ssa.Function)}
+	if tgt, call := core.ThinTarget(p, k.body); tgt != nil {
+		k.body, k.thin = tgt, call
+	}
+	return k
 }
 
 // site: the value that denotes the closure in the root function (the MakeClosure, or the call of the
@@ -295,6 +324,13 @@ func (k *c11clo) site() ssa.Value {
 // outer expresses a value read inside the closure in the frame of the root function where possible.
 func (k *c11clo) outer(v ssa.Value) ssa.Value {
 	v = core.Resolve(v)
+	if prm, isP := v.(*ssa.Parameter); isP && k.thin != nil && prm.Parent() == k.body {
+		for i, q := range k.body.Params {
+			if q == prm && i < len(k.thin.Call.Args) {
+				v = core.Resolve(k.thin.Call.Args[i])
+			}
+		}
+	}
 	fn := k.mc.Fn.(*ssa.Function)
 	var fv *ssa.FreeVar
 	switch x := v.(type) {
@@ -333,7 +369,7 @@ func c11findClo(p *core.Prog, root *ssa.Function, pred func(*ssa.Function) bool)
 		mc, ok := ins.(*ssa.MakeClosure)
 		return ok && pred(mc.Fn.(*ssa.Function))
 	}) {
-		out = &c11clo{f.Ins.(*ssa.MakeClosure), f.Stack}
+		out = newC11clo(p, f.Ins.(*ssa.MakeClosure), f.Stack)
 	}
 	return out
 }
@@ -341,9 +377,15 @@ func c11findClo(p *core.Prog, root *ssa.Function, pred func(*ssa.Function) bool)
 func c11subscribe(c *core.Ctx, ds, doEffect *ssa.Function) {
 	p := c.P
 	// closures: doSub (calls OnNext) and doOb (evaluates); they may be built by factory helpers
+	bodyOf := func(a *ssa.Function) *ssa.Function {
+		if tgt, _ := core.ThinTarget(p, a); tgt != nil && tgt != doEffect {
+			return tgt
+		}
+		return a
+	}
 	evaluates := func(a *ssa.Function) bool {
 		ev := false
-		core.Instrs(a, func(ins ssa.Instruction) {
+		core.Instrs(bodyOf(a), func(ins ssa.Instruction) {
 			if call, ok := ins.(*ssa.Call); ok && core.Callee(&call.Call) == doEffect {
 				ev = true
 			}
@@ -352,7 +394,7 @@ func c11subscribe(c *core.Ctx, ds, doEffect *ssa.Function) {
 	}
 	delivers := func(a *ssa.Function) bool {
 		on := false
-		core.Instrs(a, func(ins ssa.Instruction) {
+		core.Instrs(bodyOf(a), func(ins ssa.Instruction) {
 			if call, ok := ins.(*ssa.Call); ok && core.FieldKey(call.Call.Value) == "Subscription.OnNext" {
 				on = true
 			}
@@ -364,14 +406,17 @@ func c11subscribe(c *core.Ctx, ds, doEffect *ssa.Function) {
 		c.Unknown("R3", "doSubscribe/closures", p.Pos(ds.Pos()), "expected one closure evaluating the effect and one calling OnNext")
 		return
 	}
-	doOb := ob.mc.Fn.(*ssa.Function)
+	doOb := ob.body
 	obParent := ob.mc.Parent()
 	sub := c11findClo(p, obParent, delivers)
+	if sub == nil && ob.thin != nil {
+		sub = c11findClo(p, ob.body, delivers) // the delivery closure is built inside the helper the observe closure defers to
+	}
 	if sub == nil {
 		c.Unknown("R3", "doSubscribe/closures", p.Pos(ds.Pos()), "expected one closure evaluating the effect and one calling OnNext")
 		return
 	}
-	doSub := sub.mc.Fn.(*ssa.Function)
+	doSub := sub.body
 	// routing count: in function `in`, the closure value `isClosure` is either called directly or posted to a handler
 	route := func(in *ssa.Function, isClosure func(ssa.Value) bool, start *ssa.BasicBlock, after ssa.Instruction) (int, int, ssa.Value) {
 		var chosenBy ssa.Value
@@ -462,10 +507,13 @@ func c11subscribe(c *core.Ctx, ds, doEffect *ssa.Function) {
 	isDoSub := func(v ssa.Value) bool {
 		v = core.Unwrap(v)
 		if mc, ok := v.(*ssa.MakeClosure); ok {
-			return mc.Fn == ssa.Value(doSub)
+			return mc == sub.mc
+		}
+		if core.Resolve(v) == sub.site() {
+			return true
 		}
 		// the delivery closure as seen from the creator of doOb
-		obInParent := &c11clo{ob.mc, nil}
+		obInParent := &c11clo{mc: ob.mc, body: ob.body, thin: ob.thin}
 		return core.Resolve(obInParent.outer(v)) == sub.site()
 	}
 	emin, emax := core.PathCount(doOb, func(ins ssa.Instruction) int {
@@ -488,7 +536,7 @@ func c11subscribe(c *core.Ctx, ds, doEffect *ssa.Function) {
 	// the evaluation result is stored to the variable doSub reads: identify the cell in the frame that owns it
 	var storedCell ssa.Value
 	stored := ""
-	obInParent := &c11clo{ob.mc, nil}
+	obInParent := &c11clo{mc: ob.mc, body: ob.body, thin: ob.thin}
 	core.Instrs(doOb, func(ins ssa.Instruction) {
 		if st, ok := ins.(*ssa.Store); ok {
 			if call, isC := core.Resolve(st.Val).(*ssa.Call); isC && core.Callee(&call.Call) == doEffect {
@@ -511,7 +559,15 @@ func c11subscribe(c *core.Ctx, ds, doEffect *ssa.Function) {
 	core.Instrs(doSub, func(ins ssa.Instruction) {
 		if call, ok := ins.(*ssa.Call); ok && core.FieldKey(call.Call.Value) == "Subscription.OnNext" && len(call.Call.Args) == 1 {
 			// the argument is a read of the cell the evaluation was stored into
-			if ld, isLd := call.Call.Args[0].(*ssa.UnOp); isLd && ld.Op == token.MUL && storedCell != nil {
+			arg := call.Call.Args[0]
+			if prm, isP := arg.(*ssa.Parameter); isP && sub.thin != nil {
+				for i, q := range sub.body.Params {
+					if q == prm && i < len(sub.thin.Call.Args) {
+						arg = sub.thin.Call.Args[i]
+					}
+				}
+			}
+			if ld, isLd := arg.(*ssa.UnOp); isLd && ld.Op == token.MUL && storedCell != nil {
 				if sub.outer(ld.X) == storedCell {
 					argOK = true
 				}
